@@ -123,7 +123,8 @@ Damage ==
   IN RefParseASet(ct) = [ok |-> TRUE, v |-> v] /\ RefParseASet(bad) # RefParseASet(ct)
 Inv == CASE c.k = "val" -> Laws(c.v)
          [] c.k = "rnd" -> Laws(RndValue(c.seed))
-         [] c.k = "root" -> Damage
+         [] c.k = "root" -> Damage /\ \A r \in { [n_sets |-> n, slots |-> k, labelled |-> l, meta |-> m, clips |-> cl] :
+                                                     n \in {0, 2}, k \in {0, 1, 32, 33, 200, 256}, l \in BOOLEAN, m \in BOOLEAN, cl \in {0, 5} } : BigRuleLaw(r)
          [] OTHER -> TRUE
 
 
